@@ -2,6 +2,7 @@ package main
 
 import (
 	"fmt"
+	"os"
 	"go/token"
 	"go/types"
 	"reflect"
@@ -92,11 +93,18 @@ func rootsOf(v ssa.Value) []vroot {
 		case *ssa.Extract:
 			if nx, ok := x.Tuple.(*ssa.Next); ok {
 				add(vroot{Kind: rIter, V: nx})
+				// the element also belongs to whatever the iterated container belongs to
+				if rg, ok := nx.Iter.(*ssa.Range); ok {
+					rec(rg.X, d+1)
+				}
 				return
 			}
 			rec(x.Tuple, d+1)
 		case *ssa.Next:
 			add(vroot{Kind: rIter, V: x})
+			if rg, ok := x.Iter.(*ssa.Range); ok {
+				rec(rg.X, d+1)
+			}
 		case *ssa.Phi:
 			for _, e := range x.Edges {
 				rec(e, d+1)
@@ -683,7 +691,16 @@ func (e *orderEngine) classify(l *mapLoop) []sink {
 	inBody := func(i ssa.Instruction) bool { return i != nil && l.body[i.Block()] }
 	// loop-relative class of a reference
 	classOf := func(v ssa.Value) (local, iter, outer bool, desc string) {
-		for _, r := range rootsOf(v) {
+		rs := rootsOf(v)
+		// reachable from this loop's own element: the iteration's private state
+		if l.next != nil {
+			for _, r := range rs {
+				if r.Kind == rIter && r.V == ssa.Value(l.next) {
+					return false, true, false, ""
+				}
+			}
+		}
+		for _, r := range rs {
 			switch r.Kind {
 			case rLocal:
 				if inBody(r.At) {
@@ -996,7 +1013,27 @@ func (e *orderEngine) sortedBeforeUse(l *mapLoop, addr ssa.Value, _ interface{})
 		if !blockReaches(l.header, b, nil) {
 			return
 		}
-		for _, r := range *ld.Referrers() {
+		var refs []ssa.Instruction
+		var follow func(v ssa.Value, d int)
+		follow = func(v ssa.Value, d int) {
+			for _, r := range *v.Referrers() {
+				switch x := r.(type) {
+				case *ssa.MakeInterface:
+					if d < 4 {
+						follow(x, d+1)
+						continue
+					}
+				case *ssa.ChangeType:
+					if d < 4 {
+						follow(x, d+1)
+						continue
+					}
+				}
+				refs = append(refs, r)
+			}
+		}
+		follow(ld, 0)
+		for _, r := range refs {
 			if cl, ok := r.(ssa.CallInstruction); ok && isSanitiserCall(cl) {
 				sorts = append(sorts, r)
 				continue
@@ -1012,6 +1049,9 @@ func (e *orderEngine) sortedBeforeUse(l *mapLoop, addr ssa.Value, _ interface{})
 			uses = append(uses, r)
 		}
 	})
+	if os.Getenv("ORDER_DEBUG") != "" {
+		fmt.Fprintf(os.Stderr, "sortedBeforeUse %s key=%s sorts=%d uses=%d\n", fnName(f), key, len(sorts), len(uses))
+	}
 	if len(sorts) == 0 {
 		return false
 	}
@@ -1444,6 +1484,20 @@ func runOrder(c *Check, rule string, e *orderEngine, sel func(*ssa.Function) boo
 		eachInstr(f, func(_ *ssa.BasicBlock, i ssa.Instruction) {
 			call, ok := i.(*ssa.Call)
 			if !ok {
+				return
+			}
+			if o := calleeObj(call); o != nil && o.Pkg() != nil && o.Pkg().Path() == "reflect" && (o.Name() == "MapKeys" || o.Name() == "MapRange") {
+				nTaintCalls++
+				key := fmt.Sprintf("%s|result of reflect.%s", fnName(f), o.Name())
+				sorted, onlyRet := e.sliceUseState(call, nil)
+				switch {
+				case sorted:
+					c.Okf(rule, key, p.pos(call.Pos()), "reflected map keys are sorted before any order-sensitive use")
+				case onlyRet:
+					c.Flagf(rule, key, p.pos(call.Pos()), "reflected map keys (map iteration order) are returned unsorted")
+				default:
+					c.Flagf(rule, key, p.pos(call.Pos()), "reflected map keys are in map iteration order and are used here without being sorted first")
+				}
 				return
 			}
 			for _, g := range e.callees[call] {
